@@ -284,6 +284,27 @@ def _is_default_keyword(expr, kwname):
     return False
 
 
+def _takes_over(ref_fn, cur_fn, x, y):
+    """every binding of the new local y in the current function is a plain assignment of a value that the reference function
+    assigns to x"""
+    ys = [s for s in ast.walk(cur_fn) if isinstance(s, (ast.Assign, ast.AugAssign, ast.AnnAssign, ast.For, ast.With, ast.NamedExpr, ast.comprehension))
+          and any(isinstance(n, ast.Name) and n.id == y and isinstance(n.ctx, ast.Store) for n in ast.walk(s)
+                  if not isinstance(s, (ast.For, ast.With)) or True)]
+    ys = [s for s in ys if any(isinstance(n, ast.Name) and n.id == y and isinstance(n.ctx, ast.Store)
+                               for t in ([s.target] if hasattr(s, 'target') else getattr(s, 'targets', [])) for n in ast.walk(t))
+          or isinstance(s, ast.With)]
+    if not ys:
+        return False
+    xs = [s.value for s in ast.walk(ref_fn) if isinstance(s, ast.Assign) and len(s.targets) == 1 and isinstance(s.targets[0], ast.Name)
+          and s.targets[0].id == x]
+    for s in ys:
+        if not (isinstance(s, ast.Assign) and len(s.targets) == 1 and isinstance(s.targets[0], ast.Name) and s.targets[0].id == y):
+            return False
+        if not any(treecmp.compare(s.value, v)[0] == 'equal' for v in xs):
+            return False
+    return True
+
+
 def _order_insensitive(loop):
     """the loop body only unions values into set accumulators which it never reads"""
     if not isinstance(loop, ast.For) or loop.orelse:
@@ -446,9 +467,9 @@ def diff_function(ref_fn, cur_fn):
                 f[0] = 'different'
             elif len(parts) >= 5 and parts[1] not in cur_all and parts[4] not in ref_all:
                 f[0] = 'different'      # X no longer exists and Y is new: X was renamed to Y throughout the function
-            elif len(parts) >= 5 and parts[4] not in ref_all and parts[4] in cur_bound:
-                # Y is a local the reference function does not have at all: it needs its own definition(s), so this is a
-                # multi-statement rewrite (a reused variable split into two), not a one-token mutation
+            elif len(parts) >= 5 and parts[4] not in ref_all and parts[4] in cur_bound and _takes_over(ref_fn, cur_fn, parts[1], parts[4]):
+                # Y is a local the reference function does not have, and every value bound to Y is a value the reference
+                # binds to X: a reused variable was split into two names -- a multi-statement rewrite, not a one-token mutation
                 f[0] = 'different'
     # guard 2: possibly compensating mutations (one binds what the other reads)
     muts = [f for f in findings if f[0] == 'mutation']
